@@ -953,7 +953,12 @@ Proof.
       * intros n w5 [[H5 H5c] H5l]. apply wp_ret. apply wp_ret.
         split; [split; [exact H5 | congruence] | exact H5l].
       * intros w5 [[H5 H5c] H5l]. split; [split; [exact H5 | congruence] | exact H5l].
-    + apply wp_ret. apply wp_ret. exact H4.
+    + destruct (N.eqb fate 3).
+      * apply wp_bind.
+        eapply wp_mono; [apply drain_count_Z; exact HD4 | |]; cbn beta.
+        -- intros n w5 H5. apply wp_ret. apply wp_ret. eapply zpost_base; eauto.
+        -- intros w5 H5. eapply zpost_base; eauto.
+      * apply wp_ret. apply wp_ret. exact H4.
 Qed.
 
 Lemma drain_nth_session_Z (E : env key V query cstate) rp pre nk (w : world) :
@@ -1027,6 +1032,8 @@ Lemma op_s_into_iter_Z sc take fate (w : sworld) :
           tail <- (if N.eqb fate 0 then (drop_map (env_set sc) ;; ret [])
                    else if N.eqb fate 2
                         then (n <- finally_drop (env_set sc) (set_into_for_each sc (S l) 0) ;; ret [nn n])
+                   else if N.eqb fate 3
+                        then (n <- finally_drop (env_set sc) (set_into_count sc (S l) 0) ;; ret [nn n])
                         else ret []) ;;
           ret (acc ++ [nn l] ++ tail)) ;;
       ret body)
@@ -1046,12 +1053,17 @@ Proof.
       * intros w2 _. apply Hfin.
     + destruct (N.eqb fate 2).
       * apply wp_bind.
-        eapply wp_mono; [apply Safety3.wp_finally_drop with (Qn := fun _ _ => True) | |]; cbn beta.
-        -- eapply wp_mono; [apply keeps_set_into_for_each; exact Hw1 | |]; cbn beta; [auto|].
-           intros w' [H _]. exact H.
+        eapply wp_mono; [apply wp_finally_keeps; [apply keeps_set_into_for_each | exact Hw1] | |];
+          cbn beta.
         -- intros n w2 _. apply wp_ret. apply wp_ret. apply wp_ret. apply Hfin.
         -- intros w2 _. apply Hfin.
-      * apply wp_ret. apply wp_ret. apply wp_ret. apply Hfin.
+      * destruct (N.eqb fate 3).
+        -- apply wp_bind.
+           eapply wp_mono; [apply wp_finally_keeps; [apply keeps_set_into_count | exact Hw1] | |];
+             cbn beta.
+           ++ intros n w2 _. apply wp_ret. apply wp_ret. apply wp_ret. apply Hfin.
+           ++ intros w2 _. apply Hfin.
+        -- apply wp_ret. apply wp_ret. apply wp_ret. apply Hfin.
   - intros w1 _. apply Hfin.
 Qed.
 
